@@ -24,6 +24,7 @@ struct SymRef { t_u32 x; };
 #define K_XOR 13
 #define K_EQ 14
 #define K_ITE 15
+#define K_DISTINCT 16
 #define S_BOOL 0
 #define S_U 1
 #define NT 18
@@ -77,16 +78,17 @@ static t_int h_eval(t_uchar kind, t_int n, const t_u32 *a) {
     case K_XOR: return (d0 != 0) != (d1 != 0);
     case K_EQ:  return d0 == d1;
     case K_ITE: return d0 ? d1 : d2;
+    case K_DISTINCT: return d0 != d1 && (n < 3 || (d0 != d2 && d1 != d2));
   }
   __CPROVER_assert(0, "mkFun is asked for a known symbol"); return 0; }
 t_int g_mkfun_calls;
 struct PTRef Logic__mkFun(void *self, struct SymRef s, struct vec_PTRef *args) {
   t_int n = args->sz; t_uchar kind = (t_uchar)s.x; g_mkfun_calls++;
   __CPROVER_assert(n >= 1 && n <= 3, "application of one to three arguments (arena bound)");
-  __CPROVER_assert((kind == K_NOT && n == 1) || ((kind == K_AND || kind == K_OR) && n >= 2) || ((kind == K_XOR || kind == K_EQ) && n == 2) || (kind == K_ITE && n == 3), "arity matches the symbol");
+  __CPROVER_assert((kind == K_NOT && n == 1) || ((kind == K_AND || kind == K_OR) && n >= 2) || ((kind == K_XOR || kind == K_EQ) && n == 2) || (kind == K_ITE && n == 3) || (kind == K_DISTINCT && n >= 2), "arity matches the symbol");
   t_u32 a[3] = { 0, 0, 0 };
   for (t_int i = 0; i < 3; i++) if (i < n) { a[i] = args->data[i].x; __CPROVER_assert(a[i] < (t_u32)g_nt, "argument is a term of the store"); }
-  for (t_int i = 0; i < 3; i++) if (i < n && kind != K_EQ && !(kind == K_ITE && i > 0)) __CPROVER_assert(g_t[a[i] < NT ? a[i] : 0].sort == S_BOOL, "Boolean connective applied to Boolean arguments");
+  for (t_int i = 0; i < 3; i++) if (i < n && kind != K_EQ && kind != K_DISTINCT && !(kind == K_ITE && i > 0)) __CPROVER_assert(g_t[a[i] < NT ? a[i] : 0].sort == S_BOOL, "Boolean connective applied to Boolean arguments");
   if (kind == K_EQ || kind == K_ITE) __CPROVER_assert(g_t[a[n - 2] < NT ? a[n - 2] : 0].sort == g_t[a[n - 1] < NT ? a[n - 1] : 0].sort, "both sides / both branches have the same sort");
   /* hash-consing: the same application is the same term */
   for (t_int k = 0; k < NT; k++) if (k < g_nt && g_t[k].kind == kind && g_t[k].n == n && g_t[k].a[0] == a[0] && (n < 2 || g_t[k].a[1] == a[1]) && (n < 3 || g_t[k].a[2] == a[2])) { struct PTRef r; r.x = (t_u32)k; return r; }
@@ -104,6 +106,20 @@ struct PTRef Logic__mkOr__vec_PTRef_RR(void *self, struct vec_PTRef *args) { t_i
 #ifdef C14_USE_mkAnd
 struct PTRef Logic__mkAnd__vec_PTRef_RR(void *self, struct vec_PTRef *args) { t_int n = args->sz; __CPROVER_assert(n >= 0 && n <= 3, "arena bound"); t_bool d = 1;
   for (t_int i = 0; i < 3; i++) if (i < n) { __CPROVER_assert(nd(args->data[i])->sort == S_BOOL, "mkAnd is given Boolean terms"); d = d && den_of(args->data[i].x); } return h_by_contract(d); }
+#endif
+#ifdef C14_USE_mkEq
+struct PTRef Logic__mkEq__vec_PTRef_RR(void *self, struct vec_PTRef *args) { __CPROVER_assert(args->sz == 2, "mkEq is used on two arguments here"); struct PTRef a = args->data[0], b = args->data[1];
+  __CPROVER_assert(nd(a)->sort == nd(b)->sort, "mkEq is given terms of one sort"); return h_by_contract(den_of(a.x) == den_of(b.x)); }
+#endif
+#ifdef C14_DISTINCT
+/* the general distinct term is built directly through the term store (not through mkFun): the store operations are the trusted constructors here */
+struct SymRef PtStore__lookupSymbol(void *self, const t_char *name, struct vec_PTRef *args) { struct SymRef s; s.x = K_DISTINCT; return s; }
+t_bool Logic__isBooleanOperator__SymRef(void *self, struct SymRef s) { return s.x != K_DISTINCT && s.x != K_EQ && s.x != K_ITE; }
+static t_int h_find_app(t_u32 kind, struct vec_PTRef *a) { t_int n = a->sz; for (t_int k = 0; k < NT; k++) if (k < g_nt && g_t[k].kind == kind && g_t[k].n == n && g_t[k].a[0] == a->data[0].x && (n < 2 || g_t[k].a[1] == a->data[1].x) && (n < 3 || g_t[k].a[2] == a->data[2].x)) return k; return -1; }
+t_bool PtStore__hasCplxKey(void *self, struct PTLKey *k) { __CPROVER_assert(k->args.sz >= 1 && k->args.sz <= 3, "arena bound"); return h_find_app(k->sym.x, &k->args) >= 0; }
+struct PTRef PtStore__getFromCplxMap(void *self, struct PTLKey *k) { t_int i = h_find_app(k->sym.x, &k->args); __CPROVER_assert(i >= 0, "map read after a positive membership test"); struct PTRef r; r.x = (t_u32)(i >= 0 ? i : 0); return r; }
+struct PTRef PtStore__newTerm(void *self, struct SymRef s, struct vec_PTRef *args) { return Logic__mkFun(self, s, args); }
+void PtStore__addToCplxMap(void *self, struct PTLKey *k, struct PTRef tr) { __CPROVER_assert(h_find_app(k->sym.x, &k->args) == (t_int)tr.x, "the term registered under a key is the application the key describes"); }
 #endif
 #ifdef C14_USE_mkBinaryEq
 struct PTRef Logic__mkBinaryEq(void *self, struct PTRef a, struct PTRef b) { __CPROVER_assert(nd(a)->sort == nd(b)->sort, "mkBinaryEq is given terms of one sort"); return h_by_contract(den_of(a.x) == den_of(b.x)); }
@@ -125,12 +141,18 @@ void vec_PtAsgn__capacity__int(struct vec_PtAsgn *self, t_int min_cap) { __CPROV
 void free(void *p) { }
 void PTRef__dtor(void *self) { }
 void PtAsgn__dtor(void *self) { }
+#ifdef C14_TERMSORT_SORTS
+/* Logic::termSort as a real sort (ascending reference): mkDistinct finds repeated arguments by comparing neighbours, so here the order matters */
+void Logic__termSort(void *self, struct vec_PTRef *v) { t_int n = v->sz; __CPROVER_assert(n >= 0 && n <= 3, "at most three elements (arena bound)");
+  for (int pass = 0; pass < 3; pass++) for (int i = 0; i + 1 < 3; i++) if (i + 1 < n && v->data[i].x > v->data[i + 1].x) { struct PTRef t = v->data[i]; v->data[i] = v->data[i + 1]; v->data[i + 1] = t; } }
+#else
 /* Logic::termSort: ANY permutation of the argument vector */
 void Logic__termSort(void *self, struct vec_PTRef *v) {
   t_int n = v->sz; __CPROVER_assert(n >= 0 && n <= 3, "at most three elements (arena bound)");
   if (n >= 2 && nondet_bool()) { struct PTRef t = v->data[0]; v->data[0] = v->data[1]; v->data[1] = t; }
   if (n >= 3 && nondet_bool()) { struct PTRef t = v->data[1]; v->data[1] = v->data[2]; v->data[2] = t; }
   if (n >= 2 && nondet_bool()) { struct PTRef t = v->data[0]; v->data[0] = v->data[1]; v->data[1] = t; } }
+#endif
 #ifdef C14_SORTCALL
 /* std::sort over at most three PtAsgn: ANY permutation (the equivalence obligation must not depend on the order) */
 void sort(struct PtAsgn *b, struct PtAsgn *e, struct LessThan_PtAsgn cmp) {
